@@ -13,7 +13,7 @@ def check(run):
     p = run.prog
     fc = p.cls('FilesComparison')
     fns = [fc.methods[n] for n in ('check_strings', 'check_file', 'check_string_against_file', 'wrong_content', 'wrong_number',
-                                   'check_binary_file', 'check_for_permutation_failures') if n in fc.methods]
+                                   'check_binary_file', 'check_for_permutation_failures', 'check_patterns') if n in fc.methods]
     if len(fns) < 6:
         raise AnalysisError('FilesComparison lost its comparison methods')
     n = mirror_rule(run, 'C04-SYM', fns, mirror.ACTUAL_EXPECTED,
